@@ -315,6 +315,16 @@ func (e *Engine) checkProperty(prop, tier string, par int, writeLedger bool) int
 				}
 				continue
 			}
+			if o.Direct && o.Res.Solver == "bounded enumeration" {
+				// a bounded stand-in is never counted as an obligation discharged; it is listed under its own key
+				st := "passed"
+				if !o.ok() {
+					st = "FAILED"
+					addViolation(o.Name, o, "bounded stand-in failed: "+o.Contract)
+				}
+				e.boundedResults = append(e.boundedResults, o.Name+": "+st)
+				continue
+			}
 			nObl++
 			if o.ok() {
 				nDis++
@@ -443,6 +453,7 @@ func (e *Engine) evidence(prop, tier string, seed int, rr *runResult, extra *ext
 		}
 	}
 	cov := map[string]interface{}{
+		"bounded_checks_not_counted_as_proved": e.boundedResults,
 		"obligations":               nObl,
 		"discharged":                nDis,
 		"checker_cmd":               fmt.Sprintf("/verif/bin/govc -check -prop %s -tier %s  (solvers raced per obligation: z3-new 5.1.0, z3 4.8.12, cvc5 1.0.x; timeout %ds)", prop, tier, e.timeout),
